@@ -72,9 +72,14 @@ def _run_one(args: Tuple[str, str, int]) -> Dict[str, Any]:
             if e.file.endswith(".py"):
                 ast.parse(ov[e.file])
             repo = Repo(root, ov)
-            importlib.import_module(f"sa.rules.{prop.lower()}").run(repo, rep)
+            try:
+                importlib.import_module(f"sa.rules.{prop.lower()}").run(repo, rep)
+            except (TypeError, ValueError, IndexError, KeyError, AttributeError) as ex:
+                err = f"analyser exception {type(ex).__name__}: {ex}"
         except AnalysisError as ex:
             err = str(ex)
+        except RecursionError:
+            err = "analyser recursion"
         except SyntaxError as ex:
             return {"name": e.name, "status": "stale", "detail": f"edit does not parse: {ex}"}
         rules = sorted({f.rule for f in rep.findings})
